@@ -1240,13 +1240,21 @@ def compress(s):
     return {'parts': parts}
 
 
-def json_case(env, r, kind, prop, entry, data, verdict, expect_obj, elem_kind, obj_index=None):
+def sibling_blob(env, src_kind, n):
+    """a blob object of another JSON class whose text is n characters long"""
+    return env.json_classes[src_kind](['a' * (n - 4)])
+
+
+def json_case(env, r, kind, prop, entry, data, verdict, expect_obj, elem_kind, obj_index=None, sibling=None):
     """run one JSON blob case; data is text or object"""
     cls = env.json_classes[kind]
     case = {'family': 'json', 'kind': kind, 'entry': entry, 'repr': compress(data) if isinstance(data, str) else repr(data)[:200],
             'elem_kind': elem_kind}
     if obj_index is not None:
         case['obj_index'] = obj_index
+    if sibling is not None:
+        case['sibling'] = list(sibling)
+        case['repr'] = '%s object of %d characters' % tuple(sibling)
     accepted, exc, stored_ok, reenc_bad = False, None, True, None
     is_text = isinstance(data, str)
     try:
@@ -1329,6 +1337,20 @@ def json_round(env, r, quick):
             for entry in ('class:object', 'elem_assign:object'):
                 kk += 1
                 json_case(env, r, kind, prop, entry, obj, v, obj if n is not None else None, kinds[kk % len(kinds)], oi)
+        # a blob object of one of the other classes offered as the data: whether that is taken is left open, but what is
+        # stored never exceeds the limit of the class it is stored as
+        for src_kind in JSON_PROPS.values():
+            if src_kind == kind or src_kind not in env.json_classes:
+                continue
+            for n in sorted({8, limit, limit + 1, R.JSON_LIMITS[src_kind]}):
+                if n > R.JSON_LIMITS[src_kind]:
+                    continue
+                v = OUT if n > limit else UNSPEC
+                for entry in ('class:object', 'sliver_setter', 'elem_assign:object', 'elem_set_property'):
+                    kk += 1
+                    ctx.count('json:sibling-blob')
+                    src = sibling_blob(env, src_kind, n)
+                    json_case(env, r, kind, prop, entry, src, v, src.data, kinds[kk % len(kinds)], sibling=(src_kind, n))
         # None means "no data": documented default is an empty JSON object
         inst = env.json_classes[kind](None)
         if inst.json != '{}':
@@ -1372,7 +1394,12 @@ def replay(ctx, case):
     elif fam == 'json':
         kind = w['kind']
         prop = next(p for p, k in JSON_PROPS.items() if k == kind)
-        if w.get('obj_index') is not None:
+        if w.get('sibling'):
+            src_kind, n = w['sibling']
+            src = sibling_blob(env, src_kind, n)
+            json_case(env, r, kind, prop, w['entry'], src, OUT if n > R.JSON_LIMITS[kind] else UNSPEC, src.data,
+                      w.get('elem_kind', 'Node'), sibling=(src_kind, n))
+        elif w.get('obj_index') is not None:
             limit = R.JSON_LIMITS[kind]
             data, n = json_obj_candidates(r, limit)[w['obj_index']]
             v = OUT if n is None or n > limit else IN
